@@ -345,15 +345,6 @@ def columns(q):
 # ------------------------------------------------------------------------------------------------
 # classifiers of the known findings (mirrored by known_C01 in coq/Sparql/Classes.v)
 # ------------------------------------------------------------------------------------------------
-def has_not_over(e, bad):
-    """a `!` whose operand mentions a variable of `bad`"""
-    if e[0] == "cmp":
-        return False
-    if e[0] == "not":
-        return any(v in bad for v in expr_vars(e[1])) or has_not_over(e[1], bad)
-    return has_not_over(e[1], bad) or has_not_over(e[2], bad)
-
-
 def classify(q):
     """Returns the set of known-class names the query falls in, and whether it is wellscoped."""
     found = set()
@@ -377,14 +368,10 @@ def classify(q):
                     for a in args:
                         if a not in poss:
                             ws[0] = False
-                        if a not in cert:
-                            found.add("bind-arg-unbound")
-                            if a in inb:
-                                found.add("undef-filter-sibling")
+                        if a not in cert and a in inb:
+                            found.add("undef-filter-sibling")
                     if x[3] in poss:
                         ws[0] = False              # illegal in SPARQL; never generated
-                    if x[3] in inb:
-                        found.add("bind-target-sibling")
                     if all(a in cert for a in args):
                         cert.add(x[3])
                     poss.add(x[3])
@@ -400,8 +387,6 @@ def classify(q):
                         ws[0] = False
                     if v not in cert and v in inb:
                         found.add("undef-filter-sibling")
-                if has_not_over(f, vs - cert):
-                    found.add("not-of-error")
         elif t == "union":
             for g in e[1]:
                 walk(g, inb, uvg)
@@ -1025,6 +1010,11 @@ class Gen:
                 if rng.random() < 0.7:
                     q["limit"] = rng.choice([1, 2, 2, 3])
                     self.count("limit")
+                elif len(ks) > 1 and rng.random() < 0.6:
+                    # without a cut the order of a sub-select is unobservable: keys over a STRICT subset of the projection
+                    # (ties on the keys; DISTINCT must still compare whole rows)
+                    q["order_by"] = q["order_by"][:rng.randrange(1, len(ks))]
+                    self.count("order_by_strict_subset")
         return q
 
     def query(self):
@@ -1508,3 +1498,87 @@ def gen_prime_wide(rng, threads):
         elems = [["bgp", [left, [V("a"), C(PRED[2]), V("c")]]], ["group", [["bgp", [[V("a"), V("e"), V("b")]]], ["values", ["e"], [[C(PRED[0])], [None]]]]]]
     q = {"distinct": False, "proj": "*", "from": [], "from_named": [], "where": ["group", elems], "group_by": [], "order_by": [], "limit": None}
     return ds, q, n
+
+
+def gen_bind_sibling(rng):
+    """The shapes of the repaired findings C01-bind-target-sibling / C01-bind-arg-unbound (fix 1fdcd07): a pattern binds ?b,
+    a group joined after it BINDs ?b (or ?f) from constants / from variables its own group binds certainly or only sometimes;
+    the BIND value equals the sibling's ?b for some rows and differs for others, so the join on ?b keeps some and drops some."""
+    ds = gen_dataset(rng)
+    p1, p2 = rng.choice(PRED), rng.choice(PRED)
+    val = rng.choice(STRS)                           # CONCAT arguments are plain string literals
+    for subj in rng.sample(SUBJ, 2):                 # some ?b equal the BIND value, the others differ
+        if [subj, p1, val] not in ds["default"]:
+            ds["default"].append([subj, p1, val])
+    if rng.random() < 0.5 and [SUBJ[0], p2, val] not in ds["default"]:
+        ds["default"].append([SUBJ[0], p2, val])
+    ds["default"].sort()
+    inner = []
+    kind = rng.choice([0, 1, 2, 3])
+    if kind == 0:                                    # constant BIND alone in its group
+        inner = [["bind", "CONCAT", [C(val)], "b"]]
+    elif kind == 1:                                  # a pattern, then a constant BIND of the sibling's variable
+        inner = [["bgp", [[V("a"), C(p2), V("c")]]], ["bind", "CONCAT", [C(val)], "b"]]
+    elif kind == 2:                                  # BIND from a certainly bound variable of its own group
+        inner = [["bgp", [[V("a"), C(p2), V("c")]]], ["bind", "CONCAT", [V("c")], "b"]]
+    else:                                            # an argument that is unbound in some rows: the target stays unbound there
+        inner = [["values", ["c", "d"], [[C(val), None], [None, C("x")], [C("zz"), C("x")]]], ["bind", "CONCAT", [V("c"), V("d")], "b"]]
+    elems = [["bgp", [[V("a"), C(p1), V("b")]]], ["group", inner]]
+    if rng.random() < 0.3:
+        elems.append(["filter", ["cmp", "!=", V("a"), C(rng.choice(SUBJ))]])
+    if rng.random() < 0.25:
+        elems = [["union", [["group", elems], ["group", [["values", ["b"], [[C(val)]]], ["group", inner]]]]]]
+    q = {"distinct": False, "proj": "*", "from": [], "from_named": [], "where": ["group", elems], "group_by": [], "order_by": [], "limit": None}
+    return ds, q
+
+
+
+
+def gen_distinct_order(rng):
+    """SELECT DISTINCT with ORDER BY over a STRICT SUBSET of the projected variables, duplicates of the projected row arising
+    through a projected-away variable of fan-out >= 2 and interleaved with other rows that tie on the key (seeded change
+    C02r2/3: a sub-select's DISTINCT done by removing ADJACENT equal rows after the sort).  Shapes: chain ?a p ?d . ?d q ?c
+    projected on (?a, ?c); a UNION of two branches yielding the same rows; as a sub-select (alone, joined with a pattern, under
+    UNION) or as the top-level select."""
+    ds = gen_dataset(rng)
+    p1, p2 = rng.sample(PRED, 2)
+    roots = rng.sample(SUBJ, rng.choice([1, 2]))
+    vals = rng.sample(STRS + INTS[:2], rng.choice([2, 2, 3]))
+    trip = set(tuple(t) for t in ds["default"])
+    for r in roots:
+        kids = rng.sample([x for x in SUBJ if x != r], rng.choice([2, 2, 3]))
+        for k in kids:
+            trip.add((r, p1, k))
+            for v in vals:
+                if rng.random() < 0.9:
+                    trip.add((k, p2, v))            # the same values under several children: equal projected rows, not adjacent
+            trip.add((r, p2, vals[0]))              # for the UNION shape: the root carries a value itself
+    ds["default"] = sorted(list(t) for t in trip)
+    shape = rng.choice([0, 0, 1])
+    if shape == 0:
+        pats = [[V("a"), C(p1), V("d")], [V("d"), C(p2), V("c")]]
+        rng.shuffle(pats)
+        body = ["group", [["bgp", pats]]]
+    else:
+        body = ["group", [["union", [["group", [["bgp", [[V("a"), C(p1), V("d")], [V("d"), C(p2), V("c")]]]]],
+                                     ["group", [["bgp", [[V("a"), C(p2), V("c")]]]]]]]]]
+    order = [["a", rng.random() < 0.4]]
+    inner = {"distinct": True, "proj": [["VAR", "a", None], ["VAR", "c", None]], "from": [], "from_named": [], "where": body,
+             "group_by": [], "order_by": order, "limit": None}
+    r = rng.random()
+    if r < 0.3:
+        q = dict(inner)                               # the top-level select itself (execute_query.rs: finalize_select)
+        if rng.random() < 0.3:
+            q["limit"] = None
+        return ds, q
+    if r < 0.6:
+        elems = [["sub", inner]]
+    elif r < 0.85:
+        side = [["bgp", [[V("a"), C(rng.choice(PRED)), V("b")]]], ["sub", inner]]
+        rng.shuffle(side)
+        elems = side
+    else:
+        elems = [["union", [["group", [["sub", inner]]], ["group", [["values", ["a", "c"], [[C(roots[0]), C(vals[0])]]]]]]]]
+    q = {"distinct": False, "proj": "*", "from": [], "from_named": [], "where": ["group", elems], "group_by": [], "order_by": [], "limit": None}
+    return ds, q
+
